@@ -75,6 +75,11 @@ func NewConn(ctx context.Context, conn net.Conn, options ...Option) (outConn *Co
 		}
 	}()
 	record, err := readRecord(conn)
+	raw := record
+	if err == nil {
+		// A large ClientHello spans several records.
+		record, raw, err = readHandshakeMessage(conn, record)
+	}
 	if err != nil {
 		return nil, err
 	}
@@ -101,6 +106,10 @@ func NewConn(ctx context.Context, conn net.Conn, options ...Option) (outConn *Co
 		outConn.readBuf, err = outConn.inner.Marshal()
 	} else {
 		outConn.readBuf, err = outConn.outer.Marshal()
+		if len(raw) != len(record) {
+			// The hello is passed through. Keep the records as the client framed them.
+			outConn.readBuf = raw
+		}
 	}
 	if err != nil {
 		return outConn, err
@@ -354,6 +363,11 @@ func (c *Conn) Read(b []byte) (int, error) {
 		case r[0] == 22 && len(r) > 5 && r[5] == 1 && c.retryCount.Load() == 1:
 			c.debugf("Handshake Retried ClientHello\n")
 			c.readPassthrough = true
+			if r, _, err = readHandshakeMessage(c.Conn, r); err != nil {
+				c.readErr = err
+				convertErrorsToAlerts(c, err)
+				return 0, err
+			}
 			_, inner, err := c.handleClientHello(r, true)
 			if err != nil {
 				c.readErr = err
